@@ -337,9 +337,13 @@ class ExprMixin(object):
             return None
         if op in ('in', 'not in') and not isinstance(l, Phi):
             keys = None
-            if isinstance(r, DictObj):
+            # (only containers that are constants of the program: a tuple, or a dict /
+            # list built at module or class level -- one built at run time may have
+            # gained or lost elements by the time of the test)
+            if isinstance(r, DictObj) and r.site is None:
                 keys = [k for k, _ in r.entries]
-            elif isinstance(r, TupleT) or (isinstance(r, ListObj) and not r.open):
+            elif isinstance(r, TupleT) or (isinstance(r, ListObj) and not r.open and
+                                           r.site is None):
                 keys = list(r.items)
             if keys is not None and len(keys) <= 32:
                 cs = [self.compare('==', k, l) for k in keys]
@@ -635,7 +639,8 @@ class ExprMixin(object):
             outs = []
             for a, o in idx.alts:
                 cs = [self.compare('==', k, a) for k, _ in base.entries]
-                if all(isinstance(c, Const) and not c.value for c in cs):
+                if base.site is None and all(isinstance(c, Const) and not c.value
+                                             for c in cs):
                     continue
                 outs.append((self.subscript(base, a, node), o))
             if outs:
